@@ -808,6 +808,280 @@ theorem C05_refines_publish_one (db db' : Db) (t : Topic) (now : Time) (pm : Pub
 
 end enqueue
 
+/-! ### the enqueueing of a message satisfies the obligation that has no clock assumption -/
+
+section enqueue2
+open Mmmbbb.Ord Mmmbbb.Ord2
+
+/-- a step that only appends rows, for the obligation without clock assumption -/
+theorem stepOk2_of_append (db : Db) (now : Time) (db' : Db) (now' : Time) (rows : List Delivery)
+    (hnow : now ≤ now') (hd : db'.dels = db.dels ++ rows) (hs : db'.subs = db.subs)
+    (hk : ∀ d ∈ db.dels, keyOf db' d = keyOf db d)
+    (happ : appendOk2 db' now' db.dels rows = true) :
+    stepOk2 db now db' now' = true := by
+  unfold stepOk2
+  simp only [Bool.and_eq_true, decide_eq_true_eq, Bool.or_eq_true]
+  refine ⟨⟨hnow, subsOk_same db db' hs⟩, Or.inl ?_⟩
+  unfold growOk2
+  simp only [hd, List.take_left', List.drop_left', Bool.and_eq_true]
+  exact ⟨rowsUpdOk_refl' db now db' db.dels hk, happ⟩
+
+/-- rows of other subscriptions whose links stay inside their own subscription wait on no row of `x`'s -/
+theorem hasSuccIn_append_other (T pre : List Delivery) (x : Delivery)
+    (h : ∀ p ∈ pre, p.notBefore ≠ some x.id) : hasSuccIn (T ++ pre) x = hasSuccIn T x := by
+  unfold hasSuccIn
+  rw [List.any_append]
+  have : (pre.any fun e => e.notBefore == some x.id) = false := by
+    apply List.any_eq_false.mpr
+    intro p hp
+    simpa using h p hp
+  rw [this, Bool.or_false]
+
+/-- the enqueueing check for a message without key, or a subscription without ordering: no link -/
+theorem predChoiceOk_plain (db : Db) (s : Sub) (m : Msg) (now : Time) (nb : Option Id)
+    (h : ¬ (s.ordered = true ∧ ∃ k, m.orderKey = some k ∧ k ≠ "")) :
+    predChoiceOk db s m now nb = nb.isNone := by
+  unfold predChoiceOk
+  rw [if_neg]
+  intro hc
+  simp only [Bool.and_eq_true] at hc
+  apply h
+  refine ⟨hc.1, ?_⟩
+  have h2 := hc.2
+  cases hmo : m.orderKey with
+  | none => rw [hmo] at h2; simp at h2
+  | some k => rw [hmo] at h2; exact ⟨k, rfl, by simpa using h2⟩
+
+/-- one row made by `mkDelivery` for the accepted forward `f` satisfies the new-row obligation of
+    `Ord2.stepOk2` — the link clause *with the second sort key of the predecessor query* — against a
+    table that consists of the old rows (none stamped later than now) and rows made in the same
+    statement for other subscriptions -/
+theorem rowNew2_mkDelivery (db db' : Db) (s : Sub) (m : Msg) (now : Time) (f : Fwd) (pre : List Delivery)
+    (hmsg : db.msgById m.id = some m) (hs : s ∈ db.subs) (hlive : s.live = true)
+    (huniq : ∀ a ∈ db.subs, ∀ b ∈ db.subs, a.live = true → b.live = true → a.id = b.id → a = b)
+    (hids : (db.dels.map (·.id)).Nodup)
+    (hpast : ∀ d ∈ db.dels, d.publishedAt ≤ now)
+    (hsubs' : db'.subs = db.subs) (hmsgs' : db'.msgs = db.msgs)
+    (hpre : ∀ p ∈ pre, p.subId ≠ s.id ∧ p.id ≠ f.newId ∧ p.publishedAt ≤ now ∧
+      ∀ i, p.notBefore = some i → ∃ y ∈ db.dels, y.id = i ∧ y.subId = p.subId)
+    (hfresh : ∀ e ∈ db.dels, e.id ≠ f.newId)
+    (hok : predChoiceOk db s m now f.nb = true) :
+    rowNewOk2 db' now (db.dels ++ pre) (mkDelivery s m now f) = true := by
+  have hpre1 : ∀ p ∈ pre, p.subId ≠ (mkDelivery s m now f).subId := fun p hp => (hpre p hp).1
+  -- nobody among the rows of the same statement waits on a row of this subscription
+  have hsucc : ∀ x ∈ db.dels, x.subId = s.id → hasSuccIn (db.dels ++ pre) x = hasSucc db x := by
+    intro x hx hxs
+    refine hasSuccIn_append_other db.dels pre x ?_
+    intro p hp hnb
+    obtain ⟨y, hy, hyi, hys⟩ := (hpre p hp).2.2.2 x.id hnb
+    have : y = x := Ord.eq_of_nodup_ids hids hy hx hyi
+    subst this
+    exact (hpre p hp).1 (hys.symm.trans hxs)
+  unfold rowNewOk2
+  simp only [Bool.and_eq_true, decide_eq_true_eq]
+  refine ⟨⟨⟨⟨⟨⟨?ge, Int.le_refl _⟩, ?ttl⟩, rfl⟩, rfl⟩, ?fresh⟩, ?link⟩
+  case ge =>
+    apply List.all_eq_true.mpr
+    intro e he
+    rcases List.mem_append.mp he with h1 | h1
+    · exact decide_eq_true (hpast e h1)
+    · exact decide_eq_true (hpre e h1).2.2.1
+  case ttl =>
+    rw [hsubs']
+    apply List.all_eq_true.mpr
+    intro s' hs'
+    cases hl : s'.live with
+    | false => simp
+    | true =>
+      by_cases hid : s'.id = s.id
+      · have : s' = s := huniq s' hs' s hs hl hlive hid
+        subst this
+        simp [mkDelivery]
+      · have : (s'.id == (mkDelivery s m now f).subId) = false := by simpa [mkDelivery] using hid
+        simp [this]
+  case fresh =>
+    apply List.all_eq_true.mpr
+    intro e he
+    rcases List.mem_append.mp he with h1 | h1
+    · simpa [mkDelivery] using hfresh e h1
+    · simpa [mkDelivery] using (hpre e h1).2.1
+  case link =>
+    rw [liveOrd_congr_subs hsubs', keyOf_congr_msgs hmsgs']
+    -- is the message keyed, and the subscription ordered?
+    by_cases hK : s.ordered = true ∧ ∃ k, m.orderKey = some k ∧ k ≠ ""
+    · obtain ⟨hord, k, hmk, hne⟩ := hK
+      have hlo : liveOrd db (mkDelivery s m now f).subId = true :=
+        (liveOrd_iff db _).mpr ⟨s, hs, rfl, hlive, hord⟩
+      have hkk : keyOf db (mkDelivery s m now f) = some k := keyOf_of_msg (d := mkDelivery s m now f) hmsg hmk hne
+      rw [if_pos ⟨hlo, by rw [hkk]; rfl⟩]
+      rw [cands_congr db db' hmsgs', cands_append_other db db.dels pre _ hpre1,
+        cands_eq_predCands db s m now f k hmsg hmk hne]
+      rw [predChoiceOk_keyed db s m now f.nb hord k hmk hne] at hok
+      show (match f.nb with
+        | none => (predCands db s m now).isEmpty
+        | some p => (predCands db s m now).any fun q => q.id == p && (predCands db s m now).all fun e =>
+            decide (e.publishedAt ≤ q.publishedAt) &&
+              (!(e.publishedAt == q.publishedAt) || !hasSuccIn (db.dels ++ pre) q || hasSuccIn (db.dels ++ pre) e)) = true
+      cases hnb : f.nb with
+      | none => rw [hnb] at hok; exact hok
+      | some p =>
+        rw [hnb] at hok
+        simp only [List.any_eq_true, Bool.and_eq_true] at hok ⊢
+        obtain ⟨q, hq, hqid, hnew⟩ := hok
+        refine ⟨q, hq, hqid, ?_⟩
+        have htb : tieBreak = true := by unfold tieBreak; rw [C05_predecessor_query_order]; rfl
+        unfold newestIn at hnew
+        rw [List.all_eq_true] at hnew ⊢
+        intro e he
+        have := hnew e he
+        simp only [htb, Bool.not_true, Bool.false_or] at this
+        have hqm : q ∈ db.dels ∧ q.subId = s.id := by
+          unfold predCands at hq
+          have := List.mem_filter.mp hq
+          simp only [Bool.and_eq_true, beq_iff_eq] at this
+          exact ⟨this.1, this.2.1.1⟩
+        have hem : e ∈ db.dels ∧ e.subId = s.id := by
+          unfold predCands at he
+          have := List.mem_filter.mp he
+          simp only [Bool.and_eq_true, beq_iff_eq] at this
+          exact ⟨this.1, this.2.1.1⟩
+        rw [hsucc q hqm.1 hqm.2, hsucc e hem.1 hem.2]
+        exact this
+    · -- not a keyed message on an ordered subscription: no link
+      have hnone : f.nb.isNone = true := by
+        rw [predChoiceOk_plain db s m now f.nb hK] at hok; exact hok
+      have hcond : ¬ (liveOrd db (mkDelivery s m now f).subId = true ∧ (keyOf db (mkDelivery s m now f)).isSome = true) := by
+        rintro ⟨hlo, hks⟩
+        apply hK
+        obtain ⟨s', hs', hid, hl', ho'⟩ := (liveOrd_iff db _).mp hlo
+        have : s' = s := huniq s' hs' s hs hl' hlive (by simpa [mkDelivery] using hid)
+        subst this
+        refine ⟨ho', ?_⟩
+        unfold keyOf at hks
+        simp only [mkDelivery, hmsg] at hks
+        cases hmo : m.orderKey with
+        | none => rw [hmo] at hks; cases hks
+        | some k' =>
+          rw [hmo] at hks
+          simp only at hks
+          refine ⟨k', rfl, ?_⟩
+          intro h0; subst h0; simp at hks
+      rw [if_neg hcond]
+      simpa [mkDelivery] using hnone
+
+theorem appendOk2_mkRows (db db' : Db) (subs : List Sub) (m : Msg) (now : Time)
+    (hmsg : db.msgById m.id = some m)
+    (hsubs : ∀ s ∈ subs, s ∈ db.subs ∧ s.live = true)
+    (huniq : ∀ a ∈ db.subs, ∀ b ∈ db.subs, a.live = true → b.live = true → a.id = b.id → a = b)
+    (hids : (db.dels.map (·.id)).Nodup)
+    (hpast : ∀ d ∈ db.dels, d.publishedAt ≤ now)
+    (hsubs' : db'.subs = db.subs) (hmsgs' : db'.msgs = db.msgs) :
+    ∀ (fwds : List Fwd) (rows pre : List Delivery), mkRows db subs m now fwds = .ok rows →
+      (∀ p ∈ pre, (∀ f ∈ fwds, p.subId ≠ f.subId ∧ p.id ≠ f.newId) ∧ p.publishedAt ≤ now ∧
+        ∀ i, p.notBefore = some i → ∃ y ∈ db.dels, y.id = i ∧ y.subId = p.subId) →
+      (fwds.map (·.newId)).Nodup → (fwds.map (·.subId)).Nodup →
+      (∀ f ∈ fwds, ∀ e ∈ db.dels, e.id ≠ f.newId) →
+      appendOk2 db' now (db.dels ++ pre) rows = true := by
+  intro fwds
+  induction fwds with
+  | nil =>
+    intro rows pre h _ _ _ _
+    unfold mkRows at h
+    injection h with h; subst h
+    rfl
+  | cons f t ih =>
+    intro rows pre h hpre hn1 hn2 hfresh
+    unfold mkRows at h
+    split at h
+    · cases h
+    · rename_i s hs
+      split at h
+      · cases h
+      · split at h
+        · cases h
+        · rename_i hpred
+          split at h
+          · cases h
+          · rename_i rest hrest
+            injection h with h; subst h
+            have hsid : s.id = f.subId := by
+              have := List.find?_some hs
+              simpa using this
+            have hsm : s ∈ subs := List.mem_of_find?_eq_some hs
+            obtain ⟨hsdb, hslive⟩ := hsubs s hsm
+            have hok : predChoiceOk db s m now f.nb = true := by simpa using hpred
+            have hrow := rowNew2_mkDelivery db db' s m now f pre hmsg hsdb hslive huniq hids hpast hsubs' hmsgs'
+              (fun p hp => by
+                have := (hpre p hp).1 f (List.mem_cons_self ..)
+                exact ⟨by rw [hsid]; exact this.1, this.2, (hpre p hp).2.1, (hpre p hp).2.2⟩)
+              (fun e he => hfresh f (List.mem_cons_self ..) e he) hok
+            simp only [List.map_cons, List.nodup_cons] at hn1 hn2
+            unfold appendOk2
+            simp only [Bool.and_eq_true]
+            refine ⟨hrow, ?_⟩
+            rw [List.append_assoc]
+            refine ih rest (pre ++ [mkDelivery s m now f]) hrest ?_ hn1.2 hn2.2
+              (fun g hg e he => hfresh g (List.mem_cons_of_mem _ hg) e he)
+            intro p hp
+            rcases List.mem_append.mp hp with h1 | h1
+            · exact ⟨fun g hg => (hpre p h1).1 g (List.mem_cons_of_mem _ hg), (hpre p h1).2.1, (hpre p h1).2.2⟩
+            · simp only [List.mem_singleton] at h1
+              subst h1
+              refine ⟨?_, Int.le_refl _, ?_⟩
+              · intro g hg
+                simp only [mkDelivery]
+                constructor
+                · intro heq
+                  exact hn2.1 (List.mem_map.mpr ⟨g, hg, by rw [← heq, hsid]⟩)
+                · intro heq
+                  exact hn1.1 (List.mem_map.mpr ⟨g, hg, heq.symm⟩)
+              · -- the link of the row just made names a row of its own subscription
+                intro i hi
+                simp only [mkDelivery] at hi
+                by_cases hK : s.ordered = true ∧ ∃ k, m.orderKey = some k ∧ k ≠ ""
+                · obtain ⟨hord, k, hmk, hne⟩ := hK
+                  rw [predChoiceOk_keyed db s m now f.nb hord k hmk hne, hi] at hok
+                  simp only [List.any_eq_true, Bool.and_eq_true, beq_iff_eq] at hok
+                  obtain ⟨q, hq, hqid, _⟩ := hok
+                  unfold predCands at hq
+                  have := List.mem_filter.mp hq
+                  simp only [Bool.and_eq_true, beq_iff_eq] at this
+                  exact ⟨q, this.1, hqid, by simpa [mkDelivery] using this.2.1.1⟩
+                · rw [predChoiceOk_plain db s m now f.nb hK, hi] at hok
+                  cases hok
+
+/-- **the enqueueing of one message satisfies the obligation of `C05_ordered_ties`** (`deliverAll`, used
+    by publish and by every dead-letter forward) — with *no* clock assumption: the rows already in the
+    table may carry the very instant the new rows are stamped with (several deliveries dead-lettered
+    in one transaction).  What makes this true is the second sort key of the predecessor query, as it
+    stands in the source (`C05_predecessor_query_order`, regenerated on every run). -/
+theorem C05_refines2_enqueue (db db' : Db) (subs : List Sub) (m : Msg) (now : Time) (fwds : List Fwd) (w : List Id)
+    (h : deliverAll db subs m now fwds = .ok (db', w))
+    (hmsg : db.msgById m.id = some m)
+    (hsubs : ∀ s ∈ subs, s ∈ db.subs ∧ s.live = true)
+    (huniq : ∀ a ∈ db.subs, ∀ b ∈ db.subs, a.live = true → b.live = true → a.id = b.id → a = b)
+    (hids : (db.dels.map (·.id)).Nodup)
+    (hpast : ∀ d ∈ db.dels, d.publishedAt ≤ now) :
+    Ord2.stepOk2 db now db' now = true := by
+  obtain ⟨rows, hrows, hdb', _⟩ := deliverAll_shape h
+  obtain ⟨hn2, _, hn1, hfresh⟩ := deliverAll_checks h
+  subst hdb'
+  refine stepOk2_of_append db now _ now rows (Int.le_refl _) rfl rfl (fun d _ => rfl) ?_
+  have := appendOk2_mkRows db { db with dels := db.dels ++ rows } subs m now hmsg hsubs huniq hids hpast rfl rfl fwds rows [] hrows
+    (fun p hp => by cases hp) ((nodupIds_iff _).mp hn1) ((nodupIds_iff _).mp hn2)
+    (fun f hf e he heq => by
+      have hc := hfresh f hf
+      have : db.allIds.contains f.newId = true := by
+        apply List.elem_eq_true_of_mem
+        unfold Db.allIds
+        simp only [List.mem_append, List.mem_map]
+        left; right
+        exact ⟨e, he, heq⟩
+      rw [this] at hc; cases hc)
+  simpa using this
+
+end enqueue2
+
 /-! ### the jobs that delete delivery rows refine the shrinking step -/
 
 section prune
@@ -2460,5 +2734,95 @@ example : fragRun {} exampleFragmentHistory := by
   refine ⟨trivial, rfl, by decide, by decide, by decide, by decide, by decide, by decide, trivial⟩
 
 end fragment
+
+/-! ### dead-lettering one delivery keeps the ordering invariant (no clock assumption) -/
+
+section deadletter2
+open Mmmbbb.Ord Mmmbbb.Ord2
+
+/-- a step that rewrites delivery rows in place, for the obligation without clock assumption -/
+theorem stepOk2_of_map (db : Db) (now : Time) (db' : Db) (now' : Time) (g : Delivery → Delivery) (hnow : now ≤ now')
+    (hd : db'.dels = db.dels.map g) (hs : db'.subs = db.subs)
+    (hg : ∀ d ∈ db.dels, rowUpdOk db now db' d (g d) = true) :
+    stepOk2 db now db' now' = true := by
+  unfold stepOk2
+  simp only [Bool.and_eq_true, decide_eq_true_eq, Bool.or_eq_true]
+  refine ⟨⟨hnow, subsOk_same db db' hs⟩, Or.inl ?_⟩
+  unfold growOk2
+  have hlen : db.dels.length = (db.dels.map g).length := by simp
+  simp only [hd, Bool.and_eq_true]
+  rw [hlen, List.take_length, List.drop_length]
+  refine ⟨?_, rfl⟩
+  have : ∀ l : List Delivery, (∀ d ∈ l, rowUpdOk db now db' d (g d) = true) → rowsUpdOk db now db' l (l.map g) = true := by
+    intro l
+    induction l with
+    | nil => intro _; rfl
+    | cons x t ih =>
+      intro h
+      simp only [List.map_cons, rowsUpdOk, Bool.and_eq_true]
+      exact ⟨h x (List.mem_cons_self ..), ih (fun d hd => h d (List.mem_cons_of_mem _ hd))⟩
+  exact this db.dels hg
+
+/-- **dead-lettering one delivery keeps the ordering invariant** — the single routine behind the three
+    triggers (a pull that finds the attempts used up, a nack, the background sweep): the forward is an
+    enqueueing (`C05_refines2_enqueue`: the forwarded rows are stamped with the instant of the
+    transaction, which earlier forwards of the same transaction share), the retirement of the source
+    row a completion of a delivery that has been handed out.  No clock assumption: any number of
+    deliveries may be dead-lettered at one instant, one after the other, and `Ord2.Inv2` — hence ordered
+    delivery on the dead-letter topic's ordered subscriptions — survives each of them. -/
+theorem C05_deadLetter_keeps_order {db : Db} {d : Delivery} {dlt : Id} {now : Time} {fwds : List Fwd}
+    {db' : Db} {w : List Id} (h : deadLetter db d dlt now fwds = .ok (db', w))
+    (hinv : Inv2 db now)
+    (huniq : ∀ a ∈ db.subs, ∀ b ∈ db.subs, a.live = true → b.live = true → a.id = b.id → a = b)
+    (hd : d ∈ db.dels) (hatt : 0 < d.attempts) :
+    Inv2 db' now := by
+  unfold deadLetter at h
+  split at h
+  · cases h
+  · rename_i db1 w1 hf
+    -- the forward
+    have h1 : Inv2 db1 now ∧ db1.subs = db.subs ∧ db1.msgs = db.msgs ∧ d ∈ db1.dels := by
+      unfold dlForward at hf
+      split at hf
+      · split at hf
+        · injection hf with hf; injection hf with e1 _; subst e1; exact ⟨hinv, rfl, rfl, hd⟩
+        · cases hf
+      · rename_i t _
+        split at hf
+        · split at hf
+          · injection hf with hf; injection hf with e1 _; subst e1; exact ⟨hinv, rfl, rfl, hd⟩
+          · cases hf
+        · split at hf
+          · cases hf
+          · rename_i m hm
+            have hmid : m.id = d.msgId := by
+              unfold Db.msgById at hm
+              simpa using List.find?_some hm
+            have hok := C05_refines2_enqueue db db1 (db.liveSubsOf t.id) m now fwds w1 hf (by rw [hmid]; exact hm)
+              (fun s hs => liveSubsOf_mem hs) huniq hinv.uniq hinv.past
+            obtain ⟨rows, _, e1, _⟩ := deliverAll_shape hf
+            refine ⟨hinv.step hok, by rw [e1], by rw [e1], ?_⟩
+            rw [e1]; exact List.mem_append_left _ hd
+    obtain ⟨hinv1, hs1, hm1, hd1⟩ := h1
+    split at h
+    · cases h
+    · injection h with h
+      injection h with e2 _
+      subst e2
+      -- the retirement of the source row
+      have hok : stepOk2 db1 now { db1 with dels := markCompleted d.id now db1.dels } now = true := by
+        refine stepOk2_of_map db1 now _ now (fun x => if (x.id == d.id) = true then { x with completedAt := some now } else x)
+          (Int.le_refl _) ?_ rfl ?_
+        · simp only [markCompleted, updateWhere]
+        · intro x hx
+          split
+          · rename_i hxd
+            have : x = d := eq_of_nodup_ids hinv1.uniq hx hd1 (by simpa using hxd)
+            subst this
+            exact rowUpdOk_complete db1 now _ rfl x now hatt
+          · exact rowUpdOk_refl db1 now _ rfl x
+      exact hinv1.step hok
+
+end deadletter2
 
 end Mmmbbb
